@@ -974,6 +974,28 @@ def run(program, rep, tier):
     tmp.obs, tmp.errors, tmp.analysed, tmp.extra = [], [], {}, {}
     c08.run(program, tmp, 'quick', sleep_only=True)
     for o in tmp.obs:
+        if o.rule in ('C08.deadline', 'C08.writes'):
+            # PAUSED *until that wait elapses*: the deadline is computed from,
+            # and compared with, the timer as last written (C08 rules)
+            o.rule = 'C09.paused-' + o.rule.split('.')[1]
+            if o.verdict == 'violated':
+                o.why = ('a coroutine stays PAUSED after its wait has '
+                         f'elapsed, or resumes before [{o.why}]')
+            rep.obs.append(o)
+            if o.verdict == 'inconclusive':
+                rep.errors.append(f'{o.rule} at {o.site}: {o.why}')
+        if o.rule == 'C08.step':
+            # the frame's walk over the active deque (one rotation of the
+            # sentinel, then one step and one move per coroutine) is what
+            # releases a finished / killed coroutine on its next turn - also
+            # the one left at the head by an exception that escaped a step
+            o.rule = 'C09.turn'
+            if o.verdict == 'violated':
+                o.why = ('a finished or killed coroutine is not released on '
+                         f'its next turn [{o.why}]')
+            rep.obs.append(o)
+            if o.verdict == 'inconclusive':
+                rep.errors.append(f'{o.rule} at {o.site}: {o.why}')
         if o.rule == 'C08.sleep':
             o.rule = 'C09.spec'
             rep.obs.append(o)
